@@ -46,6 +46,12 @@ namespace GeographicLib {
       throw GeographicErr("Polar semi-axis is not positive");
     fill(_c, _c + Lmax * AUXNUMBER * AUXNUMBER,
          numeric_limits<real>::quiet_NaN());
+    // Fill the series coefficients now so that const member functions never
+    // write to _c (this makes concurrent use of a shared object safe).
+    for (int auxout = 0; auxout < AUXNUMBER; ++auxout)
+      for (int auxin = 0; auxin < AUXNUMBER; ++auxin)
+        if (auxin != auxout)
+          fillcoeff(auxin, auxout, ind(auxout, auxin));
   }
 
   /// \cond SKIP
@@ -73,6 +79,12 @@ namespace GeographicLib {
       throw GeographicErr("Polar semi-axis is not positive");
     fill(_c, _c + Lmax * AUXNUMBER * AUXNUMBER,
          numeric_limits<real>::quiet_NaN());
+    // Fill the series coefficients now so that const member functions never
+    // write to _c (this makes concurrent use of a shared object safe).
+    for (int auxout = 0; auxout < AUXNUMBER; ++auxout)
+      for (int auxin = 0; auxin < AUXNUMBER; ++auxin)
+        if (auxin != auxout)
+          fillcoeff(auxin, auxout, ind(auxout, auxin));
   }
   /// \endcond
 
